@@ -52,16 +52,34 @@ def judge(src: str):
     try:
         ep = nodes_of(text)
         got = canon_ast.canon_tranp_module(ep)
+        # the same node objects read again with the properties in the other order, then a fresh tree read in that order
+        for again in (canon_ast.canon_tranp_module(ep, 'statements-first'), canon_ast.canon_tranp_module(ep), canon_ast.canon_tranp_module(nodes_of(text), 'statements-first')):
+            if again != got and got == want:
+                got = again
+                break
     except canon_ast.Mismatch as e:
         return ('viol', ['shape', str(e).split(' with ')[0][:60]], f'{src!r}: {e}; cpython tree {want!r}')
     except Errors.Error as e:
         return ('viol', ['node-error', type(e).__name__, _where(e)], f'{src!r}: building the node tree raised {type(e).__name__}: {e}')
     except Exception as e:  # noqa
         return ('viol', ['node-crash', type(e).__name__, _head(want)], f'{src!r}: building the node tree raised {type(e).__name__}: {e}')
+    if got != want and got == _drop_later_docstrings(want):
+        return ('viol', ['tree-differs', 'later-docstring-statement-dropped'], f'{src!r}: a triple-quoted string statement that is not the first statement of its block is missing from `statements`\n   cpython: {want!r}\n   tranp:   {got!r}')
     if got != want:
         dc = canon_ast.diff_class(want, got) or ('unknown',)
         return ('viol', ['tree-differs'] + [str(x) for x in dc], f'{src!r}: {canon_ast.first_diff(want, got)}\n   cpython: {want!r}\n   tranp:   {got!r}')
     return ('ok', _count(want))
+
+
+def _drop_later_docstrings(t):
+    """The canonical tree without string expression statements that follow the first statement of a class/def body."""
+    if not isinstance(t, tuple):
+        return t
+    if t and t[0] in ('Class', 'Def') and isinstance(t[-1], tuple):
+        body = t[-1]
+        kept = tuple(s for i, s in enumerate(body) if i == 0 or not (isinstance(s, tuple) and len(s) == 2 and s[0] == 'Expr' and isinstance(s[1], tuple) and s[1][:1] == ('Str',)))
+        return tuple(_drop_later_docstrings(x) for x in t[:-1]) + (tuple(_drop_later_docstrings(x) for x in kept),)
+    return tuple(_drop_later_docstrings(x) for x in t)
 
 
 def _where(e) -> str:
